@@ -253,7 +253,7 @@ type c08World struct {
 	msgs  *fakeBundle
 	// prov is a catalogue written as a PO file and loaded by the library's own loader (locale fr only: fr_CA, fr-BE ...
 	// reach it through the locale fallback); nil when the bundle has no message a PO file can carry
-	prov soymsg.Provider
+	prov  soymsg.Provider
 	jsgen *soyjs.Generator // one generator for the whole history (and for all goroutines of C09)
 }
 
